@@ -608,3 +608,66 @@ func scribbleSpareVal(v reflect.Value, n *int, depth int) {
 		}
 	}
 }
+
+// SharedElems reports whether two positions of one list inside v (a decoded result) refer to
+// the same object: a list of pointers or interfaces in which one non-nil pointer occurs twice.
+// A decoder creates every element itself, so a repeat means that editing one element of the
+// result silently edits another one. Pointers to zero-size objects are ignored (the runtime
+// may give them one address). It returns a description of the first repeat found.
+func SharedElems(v any) (string, bool) {
+	if v == nil {
+		return "", false
+	}
+	return sharedElemsVal(reflect.ValueOf(v), "", 0)
+}
+
+func sharedElemsVal(v reflect.Value, path string, depth int) (string, bool) {
+	if depth > 12 {
+		return "", false
+	}
+	switch v.Kind() {
+	case reflect.Ptr, reflect.Interface:
+		if v.IsNil() {
+			return "", false
+		}
+		return sharedElemsVal(v.Elem(), path, depth+1)
+	case reflect.Struct:
+		for i := 0; i < v.NumField(); i++ {
+			if v.Type().Field(i).PkgPath != "" {
+				continue
+			}
+			if s, ok := sharedElemsVal(v.Field(i), path+"."+v.Type().Field(i).Name, depth+1); ok {
+				return s, true
+			}
+		}
+	case reflect.Slice, reflect.Array:
+		ek := v.Type().Elem().Kind()
+		if ek == reflect.Ptr || ek == reflect.Interface {
+			seen := map[uintptr]int{}
+			for i := 0; i < v.Len(); i++ {
+				e := v.Index(i)
+				if ek == reflect.Interface {
+					if e.IsNil() {
+						continue
+					}
+					e = e.Elem()
+				}
+				if e.Kind() != reflect.Ptr || e.IsNil() || e.Type().Elem().Size() == 0 {
+					continue
+				}
+				if j, dup := seen[e.Pointer()]; dup {
+					return fmt.Sprintf("%s[%d] and %s[%d] are the same %s object", path, j, path, i, e.Type().Elem()), true
+				}
+				seen[e.Pointer()] = i
+			}
+		}
+		if ek == reflect.Ptr || ek == reflect.Interface || ek == reflect.Struct || ek == reflect.Slice {
+			for i := 0; i < v.Len(); i++ {
+				if s, ok := sharedElemsVal(v.Index(i), fmt.Sprintf("%s[%d]", path, i), depth+1); ok {
+					return s, true
+				}
+			}
+		}
+	}
+	return "", false
+}
